@@ -113,6 +113,26 @@ CLAIMED = {
         design_ref="DESIGN.md 3 C12, 8",
         note="Partial: step-level only; square roots, Legendre value, batch inversion, binary fields are not posed.",
     ),
+    "C08": dict(
+        engine="llsym",
+        technique="path-forking symbolic execution of optimized LLVM IR with contract stubs at cut-point functions (point/scalar decoding, division, double multiplication, point encoding); z3 decides path conditions, argument wiring and result; native replay against a reference ECDSA verifier",
+        category="model_checking",
+        text=("For all key/signature/hash bytes at the listed lengths, ECDSA verify_hash on P-256 and secp256k1 accepts "
+              "exactly when the signature has even length, surplus leading bytes are zero, r and s strictly decode "
+              "below n and are non-zero, and r equals x([h/s]G+[r/s]Q) mod n with h the big-endian first 32 hash bytes."),
+        design_ref="DESIGN.md 3 C08, 8",
+        note="Glue only (stub contracts: C05/C06/C10/C12). sign_hash / nonce derivation is not posed.",
+    ),
+    "C09": dict(
+        engine="llsym",
+        technique="path-forking symbolic execution of optimized LLVM IR with contract stubs (point decoding, double multiplication, point encoding, BLAKE2s compression as uninterpreted function); z3 decides; native replay through the library's signer and an independent BLAKE2s",
+        category="model_checking",
+        text=("For all key/signature/hash-name/data bytes at the listed lengths, jq255e and jq255s verify accepts exactly "
+              "when the signature is 48 bytes, s is canonical and the first 16 bytes of BLAKE2s(encode([s]B-[c]Q) || pk || "
+              "tag || data) equal c, with c the little-endian 128-bit multiplier."),
+        design_ref="DESIGN.md 3 C09, 8",
+        note="Glue only. GLS254, signing and ECDH key-derivation glue are not posed (ECDH totality: C19, constant time: C02).",
+    ),
     "C07": dict(
         engine="llsym",
         technique="path-forking symbolic execution of optimized LLVM IR with contract stubs at cut-point functions (point/scalar decoding, SHA-512 compression as uninterpreted function, verification helper); z3 decides path conditions and results; native replay against a reference verifier",
@@ -159,7 +179,7 @@ man = {
     "engines": [
         {"name": "polyid", "path": "engines/polyid", "serves_properties": ["C03"],
          "kind_free_text": "interpreter over rustc MIR executing point formulas over an abstract ring; z3 decides polynomial identities"},
-        {"name": "llsym", "path": "engines/llsym", "serves_properties": ["C01", "C02", "C05", "C07", "C11", "C12", "C18", "C19", "C20"],
+        {"name": "llsym", "path": "engines/llsym", "serves_properties": ["C01", "C02", "C05", "C07", "C08", "C09", "C11", "C12", "C18", "C19", "C20"],
          "kind_free_text": "symbolic executor over rustc's optimized LLVM IR (concrete control, symbolic data) with bit-vector and integer SMT encodings; z3/cvc5 decide"},
     ],
     "checks": checks,
